@@ -85,7 +85,8 @@ def recip_case(draw):
 
 @st.composite
 def rad_case(draw):
-    return {"kind": "rad", "v": draw(st.sampled_from(["rad", "mrad"])), "x": draw(G.magnitudes())}
+    # 'rad2:2' and 'mrad3:3' are the same units with the exponent written as a fraction that is not reduced
+    return {"kind": "rad", "v": draw(st.sampled_from(["rad", "mrad", "rad", "mrad", "rad2:2", "mrad3:3"])), "x": draw(G.magnitudes())}
 
 
 ANGLES = [R.render(G.atom(p, s)) for (p, s) in G.GROUPS[G.RAD_DIM] if s != "rad"] + ["deg*m/cm", "rad2", "sr"]
@@ -344,7 +345,7 @@ def check_recip(case, v):
 def check_rad(case, v):
     from scinumtools.units import Quantity
     xa = _arr(case["x"])
-    f = 1.0 if case["v"] == "rad" else 1e-3
+    f = 1.0 if case["v"].startswith("rad") else 1e-3
     exp = xa / f
     if not _range_ok(xa, 1 / f):
         return v.discard("float-range")
@@ -355,7 +356,7 @@ def check_rad(case, v):
         return v.fail("rad-raised", f"Quantity({case['x']!r}) -> {case['v']}: {e!r}")
     if not _close(got, exp) or not _close(q.value(), exp):
         return v.fail("rad-value", f"Quantity({case['x']!r}) in {case['v']} = {got!r} / {q.value()!r}, expected {exp!r}")
-    if q.units() != case["v"]:
+    if q.units() != case["v"].split("2:2")[0].split("3:3")[0]:
         return v.fail("rad-units", f"units {q.units()!r}")
     v.nt(bool(np.any(xa != 0)))
     v.label("rad")
